@@ -266,6 +266,8 @@ func (l *lexer) acceptWS() {
 		l.backup()
 
 		if strings.HasPrefix(l.input[l.pos:], str_comment_start) {
+			// the end is looked for behind the opener: "/*/" is not a whole comment
+			l.pos += len(str_comment_start) - 1
 			for {
 				var r = l.next()
 				if strings.HasPrefix(l.input[l.pos:], str_comment_end) {
